@@ -97,8 +97,41 @@ func maybeNilSource(x ssa.Value) (string, ssa.Value) {
 		if _, isMap := v.X.Type().Underlying().(*types.Map); isMap && !v.CommaOk && nilable(v.Type()) {
 			return "a map lookup (nil for a missing key)", nil
 		}
+	case *ssa.UnOp:
+		// a load of a pointer- or interface-typed local whose address was handed to encoding/json: the JSON
+		// literal null stores nil there and Unmarshal returns no error
+		if v.Op != token.MUL || !nilable(v.Type()) {
+			return "", nil
+		}
+		if al, ok := v.X.(*ssa.Alloc); ok && jsonDecodedInto(al) {
+			return "encoding/json decoding into a pointer/interface variable (the JSON literal null stores nil without an error)", nil
+		}
 	}
 	return "", nil
+}
+
+// jsonDecodedInto: the address of the local is passed (as an interface) to json.Unmarshal or (*json.Decoder).Decode.
+func jsonDecodedInto(al *ssa.Alloc) bool {
+	for _, r := range *al.Referrers() {
+		mi, ok := r.(*ssa.MakeInterface)
+		if !ok {
+			continue
+		}
+		for _, u := range *mi.Referrers() {
+			ci, ok := u.(ssa.CallInstruction)
+			if !ok || ci.Common().IsInvoke() {
+				continue
+			}
+			f := ci.Common().StaticCallee()
+			if f == nil || f.Pkg == nil || f.Pkg.Pkg.Path() != "encoding/json" {
+				continue
+			}
+			if f.Name() == "Unmarshal" || f.Name() == "Decode" {
+				return true
+			}
+		}
+	}
+	return false
 }
 
 // establishedNonNil: the block is dominated by the successor of a test that implies ok / x != nil, and that
@@ -139,7 +172,7 @@ func impliesNonNil(cond, x, okv ssa.Value) (onTrue, onFalse bool) {
 			k, ok := v.(*ssa.Const)
 			return ok && k.IsNil()
 		}
-		if (c.X == x && isNil(c.Y)) || (c.Y == x && isNil(c.X)) {
+		if (sameValue(c.X, x) && isNil(c.Y)) || (sameValue(c.Y, x) && isNil(c.X)) {
 			switch c.Op {
 			case token.NEQ:
 				return true, false
